@@ -162,7 +162,7 @@ class Queries:
 
 def mval(model, term):
     v = model.eval(term, model_completion=True)
-    if z3.is_int_value(v):
+    if z3.is_int_value(v) or z3.is_bv_value(v):
         return v.as_long()
     if z3.is_rational_value(v):
         from fractions import Fraction
